@@ -61,7 +61,7 @@ CFG = {'streams': [{'name': 'C06',
              'checker_local_is_eager_ok, local_never_forces, checked_expr_never_forces, local_invariant_preserved, '
              'checked_exec_phase_forces_nothing, local_independent_of_nonlocal_state: eager positions of an accepted file never touch the scoped '
              'store; Proofs/Local*.v) and the variable rules (checked_no_variable_errors_strict / _lazy: an accepted file never fails with '
-             'CannotAssignImmutableVariable or UndefinedCapture, and with UndefinedVariable / DuplicateVariable only through scoped variables; '
+             'CannotAssignImmutableVariable (UndefinedCapture cannot be raised at all: a missing capture is a panic, K8), and with UndefinedVariable / DuplicateVariable only if the FILE has scoped reads / scoped definitions (a file-level flag in strict mode; for lazy mode UndefinedVariable is excluded outright), for function libraries that do not return these errors themselves (call_clean: true of the stdlib); '
              'Proofs/VarScope*.v), both for files whose shorthand bodies are disciplined (K4) and, for the variable rules, supplied globals that '
              'are declared. The older local_is_pure_partial (syntactic core) is kept.',
              'shorthand bodies are outside the theorems because the implementation does not check them (known finding K4); Example '
